@@ -241,6 +241,10 @@ func init() {
 					})
 					continue
 				}
+				if strings.HasSuffix(ev, "!") { // "<event>!": this call belongs to a matched pair inside the window and must succeed
+					issue(fmt.Sprintf("e%d:%s", n, ev), strings.TrimSuffix(ev, "!"), true)
+					continue
+				}
 				issue(fmt.Sprintf("e%d:%s", n, ev), ev, false)
 			}
 			// let the history play out, then the fresh matched pair
@@ -319,6 +323,15 @@ func init() {
 					}
 				}
 				if kind == "mux" {
+					// an aborted dial (the peer wrote 1 or 2 bytes of the id and hung up), then a matched pair on the id whose
+					// low bytes those were: the pair is served, the aborted stream is nobody's connection
+					for _, xe := range []string{"Xh2", "Xh1", "Xp2"} {
+						acc, dial := "Ap7!", "Dh7!"
+						if xe[1] == 'p' {
+							acc, dial = "Ah7!", "Dp7!"
+						}
+						out = append(out, explore.Params{"kind": kind, "hist": xe + "," + acc + "," + dial}, explore.Params{"kind": kind, "hist": xe + "," + dial + "," + acc})
+					}
 					// a peer that opens a stream and closes it after 0, 2 or all 4 bytes of the id
 					for _, xe := range []string{"Xh0", "Xh2", "Xp2", "Xh4"} {
 						out = append(out, explore.Params{"kind": kind, "hist": xe})
